@@ -3,7 +3,7 @@ PROP = "C17"
 DRIVER = "c17"
 MODEL = "C17"
 MODEL_QUALID = "Model.Fallback.run_script"
-FORMAT = "[strategy 0..5 (value,value_fn,from_error,from_request_error,service,exception); pred_mode 0=none 1=even-errors 2=all 3=none-accepted; value; req; inner_kind 0=ok 1=err; inner_val; backup_kind; backup_val] -> [n_inner_calls; req_seen_by_inner; n_backup_calls; req_seen_by_backup; result_kind 0=Ok 1=Err(Inner) 2=Err(FallbackFailed); payload]"
+FORMAT = "[strategy 0..5 (value,value_fn,from_error,from_request_error,service,exception); pred_mode mod 4: 0=none 1=even-errors 2=all 3=none-accepted, pred_mode >= 4: the builder calls handle() BEFORE the strategy setter; value; req; inner_kind 0=ok 1=err; inner_val; backup_kind; backup_val] -> [n_inner_calls; req_seen_by_inner; n_backup_calls; req_seen_by_backup; result_kind 0=Ok 1=Err(Inner) 2=Err(FallbackFailed); payload]"
 RULE = "full grid strategies x predicates x inner/backup outcomes x payloads (finite, enumerated completely) plus random payloads; non-trivial = the inner call failed (a fallback decision is taken)"
 TRUSTED = ["closures passed to the layer (fe, fre, fx, predicates) are mirrored by hand in Model/Fallback.v run_script and harness/src/bin/c17.rs"]
 ASSUMPTIONS = ["backup service and strategy closures are deterministic functions of their arguments"]
@@ -16,7 +16,7 @@ def corpus():
 def generate(rng, tier):
     out = []
     for st in range(6):
-        for pm in range(4):
+        for pm in range(8):
             for ik in (0, 1):
                 for iv in (6, 7):
                     for bk in (0, 1):
@@ -24,7 +24,7 @@ def generate(rng, tier):
                             out.append([st, pm, 9, req, ik, iv, bk, 77])
     n = 200 if tier == "quick" else 5000
     for _ in range(n):
-        out.append([rng.randrange(6), rng.randrange(4), rng.randrange(-50, 50), rng.randrange(-100, 100),
+        out.append([rng.randrange(6), rng.randrange(8), rng.randrange(-50, 50), rng.randrange(-100, 100),
                     rng.randrange(2), rng.randrange(-1000, 1000), rng.randrange(2), rng.randrange(-1000, 1000)])
     return out
 
@@ -42,7 +42,7 @@ def monitor(s, t):
             return "a successful inner response was replaced or triggered the fallback"
         return None
     e = iv
-    handled = {0: True, 1: e % 2 == 0, 2: True, 3: False}[pm]
+    handled = {0: True, 1: e % 2 == 0, 2: True, 3: False}[pm % 4]
     if not handled:
         if (kind, payload) != (1, e) or n_b != 0:
             return "error refused by the predicate must come back unchanged as Inner"
@@ -61,4 +61,4 @@ def nontrivial(s, t):
 
 
 def classify(s, t):
-    return ["strategy%d" % s[0], "pred%d" % s[1], "inner_err" if s[4] else "inner_ok"]
+    return ["strategy%d" % s[0], "pred%d" % (s[1] % 4), "handle_first" if s[1] >= 4 else "handle_last", "inner_err" if s[4] else "inner_ok"]
